@@ -6,6 +6,7 @@ package main
 // dropped until a fixpoint. Only the surviving, checked conjunction is used.
 
 import (
+	"sync"
 	"bytes"
 	"context"
 	"fmt"
@@ -421,30 +422,41 @@ func (st *State) inferInvariants(pre *State, li *loopInfo, ws *writeSet) []candi
 		for i := range alive {
 			alive[i] = true
 		}
+		var mu sync.Mutex
+		var wg sync.WaitGroup
+		sem := make(chan struct{}, 8)
 		for _, bs := range run.states {
 			var gs []Term
 			var idx []int
 			for i, c := range cands {
-				if !alive[i] {
-					continue
-				}
 				t, ok := c.eval(bs)
 				if !ok {
+					mu.Lock()
 					alive[i] = false
 					dropped = true
+					mu.Unlock()
 					continue
 				}
 				gs = append(gs, t)
 				idx = append(idx, i)
 			}
-			r := e.multiQuery(bs.pcSlice(), gs)
-			for k, ok := range r {
-				if !ok {
-					alive[idx[k]] = false
-					dropped = true
+			wg.Add(1)
+			go func(bs *State, gs []Term, idx []int) {
+				defer wg.Done()
+				sem <- struct{}{}
+				defer func() { <-sem }()
+				r := e.multiQuery(bs.pcSlice(), gs)
+				mu.Lock()
+				for k, ok := range r {
+					if !ok {
+						alive[idx[k]] = false
+						dropped = true
+					}
 				}
-			}
+				mu.Unlock()
+			}(bs, gs, idx)
 		}
+		wg.Wait()
 		var next []candidate
 		for i, c := range cands {
 			if alive[i] {
@@ -463,6 +475,53 @@ func (st *State) inferInvariants(pre *State, li *loopInfo, ws *writeSet) []candi
 
 // multiQuery asks, for each goal, whether asserts ⊨ goal. One incremental z3 process.
 func (e *Engine) multiQuery(asserts []Term, goals []Term) []bool {
+	res := make([]bool, len(goals))
+	if len(goals) == 0 {
+		return res
+	}
+	// goals without quantifiers are checked against the quantifier-free hypotheses only (fast; sound: fewer hypotheses)
+	var qfA []Term
+	for _, a := range asserts {
+		if !strings.Contains(a.S, "(forall ") && !strings.Contains(a.S, "(exists ") {
+			qfA = append(qfA, a)
+		}
+	}
+	var qfIdx, qIdx []int
+	for i, g := range goals {
+		if strings.Contains(g.S, "(forall ") || strings.Contains(g.S, "(exists ") {
+			qIdx = append(qIdx, i)
+		} else {
+			qfIdx = append(qfIdx, i)
+		}
+	}
+	if len(qfIdx) > 0 && len(qIdx) > 0 || len(qfA) != len(asserts) && len(qfIdx) > 0 {
+		var wg sync.WaitGroup
+		run := func(idx []int, as []Term) {
+			defer wg.Done()
+			gs := make([]Term, len(idx))
+			for k, i := range idx {
+				gs[k] = goals[i]
+			}
+			r := e.multiQueryRaw(as, gs)
+			for k, i := range idx {
+				res[i] = r[k]
+			}
+		}
+		if len(qfIdx) > 0 {
+			wg.Add(1)
+			go run(qfIdx, qfA)
+		}
+		if len(qIdx) > 0 {
+			wg.Add(1)
+			go run(qIdx, asserts)
+		}
+		wg.Wait()
+		return res
+	}
+	return e.multiQueryRaw(asserts, goals)
+}
+
+func (e *Engine) multiQueryRaw(asserts []Term, goals []Term) []bool {
 	res := make([]bool, len(goals))
 	if len(goals) == 0 {
 		return res
